@@ -2523,7 +2523,7 @@ namespace detail {
                         auto s = arg0.as_string();
                         double d{0};
                         auto result3 = jsoncons::decstr_to_double(s.data(), s.length(), d);
-                        if (result3)
+                        if (result3 && result3.ptr == s.data() + s.length()) // the whole string must be a number
                         {
                             return *context.create_json(d);
                         }
